@@ -347,7 +347,7 @@ func indexHeader(
 
 			if moveAfterEdits {
 				// Move header (will be a no-op if the header has been moved before)
-				if err := metadataPersister.MoveHeader(context.Background(), oldName, hdr.Name, record, block); err != nil {
+				if err := metadataPersister.MoveHeader(context.Background(), oldName, hdr.Name, hdr.Linkname, record, block); err != nil {
 					return err
 				}
 			}
